@@ -221,19 +221,38 @@ def ref_trace(factory, init, ops):
     return tr
 
 
-def deepcopy_shares(factory, init):
-    """True if a deepcopy shares a mutable value with the original."""
+def mutable_ids(x, acc):
+    """ids of every list / dict reachable from x"""
+    if isinstance(x, (list, dict)):
+        if id(x) in acc:
+            return acc
+        acc[id(x)] = x
+        for y in (x.values() if isinstance(x, dict) else x):
+            mutable_ids(y, acc)
+    return acc
+
+
+def deepcopy_shares(factory, init, reads=()):
+    """True if a deepcopy shares a mutable value (at any depth, empty containers included) with the
+    original, or if mutating the copy changes the original.  [reads]: keys read before copying, so that
+    the default factory has stored its fresh [] / {} values."""
     from mappyfile.ordereddict import CaseInsensitiveOrderedDict as CI
     d = CI(CI if factory else None, copy.deepcopy(init))
+    for k in reads:
+        try:
+            d[k]
+        except KeyError:
+            pass
+    before = repr(list(d.items()))
     c = copy.deepcopy(d)
+    shared = set(mutable_ids(d, {})) & set(mutable_ids(c, {}))
     for k in list(c.keys()):
         v = c[k]
         if isinstance(v, list):
             v.append("MUT")
         elif isinstance(v, dict):
             v["mut"] = 1
-    d2 = CI(CI if factory else None, copy.deepcopy(init))
-    return list(d.items()) != list(d2.items())
+    return bool(shared) or repr(list(d.items())) != before
 
 
 def first_diff(a, b):
@@ -318,11 +337,20 @@ def run(ctx):
     ctx.coverage["op_histogram"] = {str(k): v for k, v in sorted(op_hist.items())}
     # deepcopy aliasing (hunter only; the value-level model cannot express sharing)
     n_alias = 0
-    for init in ([("a", [1]), ("b", {"x": [2]})], [("layers", [{"n": 1}])]):
+    alias_inits = [[("a", [1]), ("b", {"x": [2]})], [("layers", [{"n": 1}])], [("layers", []), ("web", {}), ("name", "")],
+                   [("a", [[]]), ("b", {"x": {}}), ("c", 0), ("d", None), ("e", False)], [], [("classes", [{"styles": []}])]]
+    for init in alias_inits:
         for f in (True, False):
-            n_alias += 1
-            if deepcopy_shares(f, init):
-                ctx.violation("deepcopy-shares", "deepcopy shares mutable state with the original", {"factory": f, "init": init})
+            for reads in ((), ("layers", "web", "zz")):
+                n_alias += 1
+                if deepcopy_shares(f, init, reads):
+                    ctx.violation("deepcopy-shares", "deepcopy shares mutable state with the original", {"factory": f, "init": init, "reads": list(reads)})
+    for _ in range(ctx.budget(60, 1000)):
+        f, init, ops = rng.choice(cases)
+        reads = [o[1] for o in ops if o[0] == 0][:3]
+        n_alias += 1
+        if deepcopy_shares(f, init, reads):
+            ctx.violation("deepcopy-shares", "deepcopy shares mutable state with the original", {"factory": f, "init": init, "reads": reads})
     ctx.count("deepcopy_alias_checks", n_alias)
     ctx.sample({"factory": cases[-1][0], "init": repr(cases[-1][1]), "ops": repr(cases[-1][2][:8])})
     ctx.sample({"exhaustive_atom_alphabet": len(atoms), "max_exhaustive_length": L})
